@@ -48,10 +48,50 @@ CHECKS = {
             "dominates every return of datetime.__new__; typed lists convert every non-instance element",
             "constructors of field types are trusted to return values of their type; plain name-to-attribute assignments cannot raise",
             "DESIGN.md 3/C05"),
+    "C10": ("sibling agreement over all reader classes: propositional implication check of branch facts at every yield; state re-initialisation (effect) analysis of the matcher; persistent-write scan of the match path; branch analysis of make_selector",
+            "selector normalised or delegated; every record yield implied-guarded by `no selector or selector.match(X)` for the same X; matcher state rebuilt per "
+            "match; no module/class-level state written while matching; make_selector never changes the engine of a given selector object unless asked",
+            "helpers are deterministic; readers of uninstalled third-party adapters are analysed but info-only", "DESIGN.md 3/C10"),
+    "C11": ("codec table agreement (extension table vs. sniffing table, resolved to libraries); constant folding of magics and slice lengths; syntactic control dependence and dominance on the read paths; refusal-site analysis",
+            "same library per codec on both tables, HAS_* flags belong to it; magics are the real signatures compared with slices of their own length; sniffing reached on every "
+            "read path and the sniffed object is the one used; undetermined input refused; strict header test; extension table names existing adapters",
+            "file signatures of the formats", "DESIGN.md 3/C11"),
     "C12": ("class-hierarchy analysis of call shapes vs. override signatures; argument-identity of the eq/hash projections; shape evaluation of all _pack methods vs. normaliser depth; pairing rule on the context manager; alias/mutation scan of the configuration object",
             "overrides accept the calls made on arbitrary Records; __eq__/__hash__ use the same _pack projection reading the global at call time; hash "
             "normaliser closed over all packed shapes; __eq__ total; scoped override restored on all exits and the saved value cannot be mutated in place",
             "tuple hashing; generated classes inherit Record's methods", "DESIGN.md 3/C12"),
+    "C13": ("must-pass-through on the timestamp constructor; who-may-read closure of the display setting; branch-fact check on every text conversion inside serialisers; form table of the binary encoder; float-epoch scan",
+            "naive->UTC dominates returns; display setting read only by __str__/__repr__; no serialiser renders a possible timestamp with str()/repr()/format; binary forms are "
+            "the 7 components / ISO text under a tzinfo test; SQLite/JSON isoformat, Avro timestamp-micros with integer arithmetic; no float seconds on storage paths",
+            "isoformat/fromisoformat and component tuples are lossless", "DESIGN.md 3/C13"),
+    "C14": ("encoder/decoder table symmetry decided from constructors' isinstance dispatch; None-exclusion branch facts at every per-field conversion; line-discipline and option wiring checks; reaching definitions of the fallback descriptor",
+            "inverse conversions exist for scalar and list forms of types whose constructor does not accept the JSON form; conversions never run on None; one document per "
+            "line, markers only under pack_descriptors; boolean normalisation; plain-JSON fallback derives from the current line only",
+            "json.dumps hook/newline behaviour", "DESIGN.md 3/C14"),
+    "C15": ("effect analysis of the composition functions; reaching definitions at every field read; symbolic sequence evaluation of extend_record under both flag values; guard facts at first-wins stores",
+            "inputs unmodified; field values read only from original inputs; value maps in (record,*others) order resp. exact reverse under replace, descriptors in original "
+            "order with the same flag; first-wins guards in merge and grouped records; timestamp expansion argument order and composition",
+            "ChainMap priority; _asdict returns a fresh dict", "DESIGN.md 3/C15"),
+    "C16": ("handler-coverage rule over the per-source try; loop-path and control-dependence checks in main; symbolic slice bounds; reaching definitions of the rewriter's descriptor",
+            "per-source isolation with a catch-all covering open/iterate/close; every sliced record reaches the writer unless --list; slice = (skip, skip+count) over the filtered "
+            "stream; writer finalised in finally; projection derived from the record's own descriptor on every call",
+            "weakest assurance of the set: skip/count arithmetic, option interaction and cross-writer equality are not decided", "DESIGN.md 3/C16"),
+    "C17": ("pairing/typestate over all writer classes: flush-effect sets vs. close(), guard-and-clear of every release, __exit__/__del__ shape, ordering in split and rotation, injectivity of the part suffix, clock provenance of the rotation stamp",
+            "close() subsumes flush() (known finding F17b: empty stream/avro output), idempotent close, flush-then-close on exit, write-before-count and >= in split, padded non-truncating "
+            "suffix, rotate-before-open with a clock stamp and no overwrite of an existing target",
+            "closing a file object flushes it", "DESIGN.md 3/C17"),
+    "C18": ("SQL string flattening with slot classification (quoted identifier / type-table slot / bound value); def-use of batch_size; transaction typestate; SQLite affinity computation over every emitted column type; WHERE-clause conjunct analysis",
+            "identifiers quoted, values bound; batch size only drives commit cadence; explicit transaction cycle, commit before close; DDL before insert keyed by the whole descriptor; "
+            "affinities keep the Python form (TEXT fallback at both sites); every table enumerated",
+            "SQLite affinity rules", "DESIGN.md 3/C18"),
+    "C19": ("dominance of refusal guards; type-table agreement with shape evaluation; embedding/detection shape agreement; value-flow check of the datum handed to fastavro",
+            "unmapped type and mixed descriptors refused (whole-descriptor comparison); primitives map back; descriptor embedded as json.dumps(_pack()) and rebuilt through RecordDescriptor; "
+            "datum is _packdict() without float-seconds conversion; integer microsecond reconstruction",
+            "fastavro validates datums against the schema", "DESIGN.md 3/C19"),
+    "C20": ("sink rule on encode()/open() of record-derived text; control dependence of header/row writes on the run-change test; def-before-use of the line format; mapping check of the text template",
+            "surrogateescape on every text sink; CSV header on every run change with default quoting and one dict for header and row; line format defined whenever the item loop runs, one "
+            "line per field; text template applied to all fields with missing keys tolerated",
+            "repr/json ASCII escaping; csv default quoting", "DESIGN.md 3/C20"),
     "C07": ("AST-field coverage matrix of the interpreter against ast.<K>._fields; operator-table comparison; delegation shape of special methods",
             "every semantically relevant field of every handled AST node kind is read and list fields are consumed entirely; "
             "operator/comparator tables map each ast class to Python's operator; membership lambdas pass the container first; "
